@@ -134,6 +134,7 @@ type c18Req struct {
 	finished bool
 	panics   int // 0: the handler returns; 1: panic(http.ErrAbortHandler) at the end; 2: panic("boom")
 	gotPanic interface{}
+	cancel   context.CancelFunc // of the context of the request being served (the client going away)
 }
 
 type c18Run struct {
@@ -232,6 +233,12 @@ func (r *c18Run) final() http.Handler {
 				if cn, ok := w.(http.CloseNotifier); ok {
 					cn.CloseNotify()
 				}
+			case 7:
+				// the client goes away while the handler is still at work; what the handler
+				// sends afterwards is still what was sent
+				zsim.Probe("request_context_cancelled")
+				q.cancel()
+				zsim.Yield("after cancel")
 			}
 		}
 		switch q.panics {
@@ -306,7 +313,12 @@ func (r *c18Run) serve(h http.Handler, q *c18Req) {
 			q.gotPanic = p
 		}
 	}()
-	h.ServeHTTP(w, q.req)
+	// as under a real server, the request's context is cancelled when the client goes away
+	// (op 7 of the innermost handler) and in any case after the handler has returned
+	ctx, cancel := context.WithCancel(q.req.Context())
+	q.cancel = cancel
+	defer cancel()
+	h.ServeHTTP(w, q.req.WithContext(ctx))
 }
 
 func firstOr(bs [][]byte) []byte {
@@ -467,7 +479,7 @@ func (c18World) Run(prop string, ch *zsim.Choices, trace bool) *RunResult {
 			}
 			nops := ch.Intn(7)
 			for k := 0; k < nops; k++ {
-				q.ops = append(q.ops, ch.Weighted(3, 4, 2, 1, 3, 1, 1))
+				q.ops = append(q.ops, ch.Weighted(6, 8, 4, 2, 6, 2, 2, 1))
 				q.args = append(q.args, ch.Intn(1000))
 			}
 			r.reqs = append(r.reqs, q)
